@@ -2,6 +2,7 @@ package output
 
 import (
 	"bufio"
+	"bytes"
 	"fmt"
 	"io"
 	"regexp"
@@ -17,9 +18,16 @@ const ansi = "[\u001B\u009B][[\\]()#;?]*(?:(?:(?:[a-zA-Z\\d]*(?:;[a-zA-Z\\d]*)*)
 
 var ansiRegexp = regexp.MustCompile(ansi)
 
+// an escape sequence that the end of a write may have cut in two: the
+// introducer and nothing but parameter/letter bytes after it
+var ansiTailRegexp = regexp.MustCompile("^(?:\u001B|\u009B)[[\\]()#;?]*[a-zA-Z\\d;]*$")
+
 type prefixedOutputDecorator struct {
 	t *task.Task
 	w *bufio.Writer
+
+	// end of the previous write that may be the beginning of an escape sequence
+	pending []byte
 }
 
 func newPrefixedOutputWriter(t *task.Task, w io.Writer) *prefixedOutputDecorator {
@@ -31,6 +39,19 @@ func newPrefixedOutputWriter(t *task.Task, w io.Writer) *prefixedOutputDecorator
 
 func (d *prefixedOutputDecorator) Write(p []byte) (int, error) {
 	n := len(p)
+
+	// Escape sequences are stripped line by line, so a sequence split across
+	// two writes would be stripped only in part. Keep a possibly unfinished
+	// sequence at the end of this write back until the next one (or the footer)
+	if len(d.pending) > 0 {
+		p = append(d.pending, p...)
+		d.pending = nil
+	}
+	if i := bytes.LastIndexAny(p, "\u001B\u009B"); i >= 0 && len(p)-i <= 32 && ansiTailRegexp.Match(p[i:]) {
+		d.pending = append([]byte(nil), p[i:]...)
+		p = p[:i]
+	}
+
 	for {
 		advance, line, err := bufio.ScanLines(p, true)
 		if err != nil {
@@ -68,6 +89,11 @@ func (d *prefixedOutputDecorator) WriteHeader() error {
 }
 
 func (d *prefixedOutputDecorator) WriteFooter() error {
+	if len(d.pending) > 0 {
+		_, _ = d.w.Write(d.pending)
+		d.pending = nil
+	}
+
 	err := d.w.Flush()
 	if err != nil {
 		logrus.Warning(err)
